@@ -292,3 +292,43 @@ func VerifHarness_C06_today() {
 	}
 	vfReach("end")
 }
+
+// C06.bigrecord: a status record of any size (symbolic, up to 100 000 bytes: a run with
+// many steps or long parameters) is found again; the record size is carried by one string
+// field whose length is symbolic (vfBlob), the payload itself stays an opaque token with a
+// symbolic wire size.
+func VerifHarness_C06_bigrecord() {
+	db, loc := vfNewDB()
+	if vfNative() {
+		defer os.RemoveAll(loc)
+	}
+	dagFile := "/dags/a.yaml"
+	pad := vfBlob("pad", 100000)
+	// keep away from the exact buffer boundaries: the wire size of the real encoding exceeds
+	// the pad by the (unmodelled) length of the other fields
+	vfAssume(len(pad) <= 1000 || len(pad) >= 66000)
+	bigFirst := vfChoice("bigWrite", 2) == 0
+	closeIt := vfChoice("close", 2) == 1
+	err := db.Open(dagFile, vfBase, "req-big-1")
+	vfAssume(err == nil)
+	s1 := vfStatus("req-big-1", scheduler.StatusRunning, "w1")
+	s2 := vfStatus("req-big-1", scheduler.StatusSuccess, "w2")
+	if bigFirst {
+		s1.Log = pad
+	} else {
+		s2.Log = pad
+	}
+	vfAssume(db.Write(s1) == nil)
+	vfAssume(db.Write(s2) == nil)
+	if closeIt {
+		vfAssume(db.Close() == nil)
+	}
+	fresh, _ := vfNewDBAt(loc)
+	st, err := fresh.ReadStatusToday(dagFile)
+	vfAssert(err == nil && st != nil && st.Params == "w2", "C06.bigrecord/latest-status-is-the-last-one-recorded")
+	sf, err := fresh.FindByRequestID(dagFile, "req-big-1")
+	vfAssert(err == nil && sf != nil && sf.Status.Params == "w2", "C06.bigrecord/lookup-by-id-returns-the-last-status")
+	rec := fresh.ReadStatusRecent(dagFile, 1)
+	vfAssert(len(rec) == 1 && rec[0].Status.Params == "w2", "C06.bigrecord/recent-history-returns-the-last-status")
+	vfReach("end")
+}
